@@ -66,15 +66,16 @@ def lmenu(dim, small=False):
     kind, lab = LABELS[dim]
     ab = D.ABSENT_BETWEEN[kind]
     m = [["s", lab[0]], ["s", ab], ["l", lab[::-1]], ["l", [lab[-1], lab[-1]]], ["m", [i % 2 == 0 for i in range(len(lab))]],
-         ["sl", lab[0], lab[1], None], ["sl", lab[1], None, None], ["l", []], ["nps", lab[-1]], ["full"]]
-    return [m[0], m[2], m[4], m[5], m[9]] if small else m
+         ["sl", lab[0], lab[1], None], ["sl", lab[1], None, None], ["l", []], ["nps", lab[-1]], ["full"],
+         ["l", lab[1:] + lab[:1]], ["nd", lab[-1:] + lab[:-1]]]      # rotations: permutations that are not their own inverse
+    return [m[0], m[2], m[4], m[5], m[9], m[10]] if small else m
 
 
 def pmenu(dim, small=False):
     n = len(LABELS[dim][1])
     m = [["s", 0], ["s", -1], ["s", n], ["l", [n - 1, 0]], ["l", [0, 0]], ["m", [i % 2 == 1 for i in range(n)]], ["sl", 1, None, None],
-         ["sl", None, None, 2], ["l", []], ["full"]]
-    return [m[0], m[3], m[5], m[6], m[9]] if small else m
+         ["sl", None, None, 2], ["l", []], ["full"], ["l", list(range(1, n)) + [0]], ["l", [n - 1] + list(range(0, n - 1))]]
+    return [m[0], m[3], m[5], m[6], m[9], m[10]] if small else m
 
 
 LSP = ["getitem", "loc", "sel", "read", "read_nc"]
@@ -372,6 +373,8 @@ def make_file(kind, path):
         o.axes.append(Axis(np.array(c19.XL), "x"))
         o["v"] = DimArray(np.arange(6.).reshape(2, 3) + 100, axes=[Axis(np.array(TL), "time"), Axis(np.array(c19.XL), "x")])
         o["t1"] = DimArray(np.array([7., 8.]), axes=[Axis(np.array(TL), "time")])
+        # the unlimited dimension is not the first one of this variable
+        o["w"] = DimArray(np.arange(6.).reshape(3, 2) + 300, axes=[Axis(np.array(c19.XL), "x"), Axis(np.array(TL), "time")])
         o.close()
     full = da.read_nc(path)
     return {k: dict.__getitem__(full, k) for k in full.keys()}
@@ -399,6 +402,9 @@ def write_events(kind):
         ev.append(["append", "v", 1, "dimarray"])
         ev.append(["append", "v", 2, "dimarray"])
         ev.append(["append", "t1", 1, "dimarray"])
+        ev.append(["append_row", "w", 10])      # w.ix[<x=10>, n] = labelled value: scalar index on the dimension BEFORE the unlimited one
+        ev.append(["append_row", "w", 30])
+        ev.append(["append_cols", "w", 2])      # w.ix[:, n:n+2] = labelled block
         for ix in (["s", 0], ["s", -1], ["l", [1, 0]]):
             ev.append(["set", "v", "position", {"time": ix}, "scalar"])
             ev.append(["set", "v", "position", {"time": ix}, "array"])
@@ -441,6 +447,34 @@ class WSpace(object):
                 v = ev[1]
                 m = mem[v]
                 before = common.snap(m)
+                if ev[0] in ("append_row", "append_cols"):
+                    n0 = m.shape[1]
+                    k = 1 if ev[0] == "append_row" else ev[2]
+                    newt = [3000.0 + n0 + i for i in range(k)]
+                    if ev[0] == "append_row":
+                        xpos = c19.XL.index(ev[2])
+                        block = DimArray(np.array([900.0 + n0]), axes=[Axis(np.array(newt), "time")])
+                        res = call(lambda: o[v].ix.__setitem__((xpos, [n0]), block))
+                    else:
+                        block = DimArray(np.arange(3. * k).reshape(3, k) + 800 + n0, axes=[Axis(np.array(c19.XL), "x"), Axis(np.array(newt), "time")])
+                        res = call(lambda: o[v].ix.__setitem__((slice(None), slice(n0, n0 + k)), block))
+                    if isinstance(res, Raised):
+                        return bad("step {} {}: appending past the end of the unlimited dimension raised {}".format(n, ev, res), klass="unexpected-exception")
+                    for name in list(mem):
+                        mm = mem[name]
+                        if "time" in mm.dims:
+                            tpos = list(mm.dims).index("time")
+                            shape = list(mm.shape); shape[tpos] = k
+                            axes = [Axis(np.array(newt), "time") if d == "time" else ax.copy() for d, ax in zip(mm.dims, mm.axes)]
+                            pad = DimArray(np.full(shape, np.nan), axes=axes)
+                            if name == v:
+                                if ev[0] == "append_row":
+                                    pad.values[xpos, 0] = block.values[0]
+                                else:
+                                    pad = block
+                            mem[name] = da.concatenate([mm, pad], axis="time")
+                    changed = True
+                    continue
                 if ev[0] == "append":
                     k = ev[2]
                     n0 = m.shape[0]
@@ -460,8 +494,9 @@ class WSpace(object):
                             if name == v:
                                 mem[name] = da.concatenate([mm, block], axis="time")
                             else:   # other variables on the unlimited dimension grow with missing values
-                                shape = list(mm.shape); shape[0] = k
-                                pad = DimArray(np.full(shape, np.nan), axes=[Axis(np.array(newt), "time")] + [ax.copy() for ax in mm.axes[1:]])
+                                tpos = list(mm.dims).index("time")
+                                shape = list(mm.shape); shape[tpos] = k
+                                pad = DimArray(np.full(shape, np.nan), axes=[Axis(np.array(newt), "time") if d == "time" else ax.copy() for d, ax in zip(mm.dims, mm.axes)])
                                 mem[name] = da.concatenate([mm, pad], axis="time")
                     changed = True
                 else:
